@@ -20,6 +20,7 @@ RT_FILES = ["map.go", "alg.go", "hash64.go", "z_map.go", "type.go", "errors.go",
 KINDS = {  # name -> (reflexive, needKeyUpdate, hashMightPanic)   (ssa/abi/map.go MapTypeFlags for these key types)
     "int": (1, 0, 0), "str": (1, 1, 0), "f64": (0, 1, 0), "any": (0, 1, 1), "arr": (1, 0, 0), "stc": (1, 1, 0), "big": (1, 0, 0)}
 KNOWN_CLEAR = "mapclear:memclr-noop-stale-buckets"
+KNOWN_NAN = "mapiter:nan-entry-of-retired-buckets-after-clear"
 
 
 class Key:
@@ -136,8 +137,6 @@ def gen_history(rng, kind, nops, with_clear, profile=None):
             k = rng.choice(uni)
             ops.append(rng.choice([("get", k, None, None), ("get1", k, None, None), ("del", k, None, None), ("len", None, None, None),
                                    ("set", k, 1, None), ("clr", None, None, None), ("itn", None, None, "a")]))
-            if ops[-1][0] == "itn":
-                ops.append(("itx", None, None, "a"))
     ops.append(("mk", None, rng.choice([0, 0, 0, 5, 8, 9, 14, 100, target]), None))
     present = {}      # cls -> Key (generator's own bookkeeping; the judge recomputes independently)
     order = []        # classes, for cheap random choice
@@ -220,7 +219,6 @@ def gen_history(rng, kind, nops, with_clear, profile=None):
             s = rng.choice("abc")
             if s not in slots or rng.random() < 0.03:
                 ops.append(("itn", None, None, s))
-                ops.append(("itx", None, None, s))
                 slots[s] = True
             else:
                 for _ in range(rng.choice([1, 1, 2, 5, 20])):
@@ -269,7 +267,7 @@ def gen_adversarial(rng, kind, binary, nops):
         s = rng.choice("ab")
         if s not in slots or rng.random() < 0.1:
             slots.add(s)
-            ops.extend([("itn", None, None, s), ("itx", None, None, s)])
+            ops.append(("itn", None, None, s))
         else:
             ops.extend([("itx", None, None, s)] * rng.choice([1, 2, 4]))
 
@@ -411,7 +409,13 @@ def judge(hist, real_ans, pre):
     isnil = True
     inc = 0
     its = {}         # slot -> {"must": set(inc), "seen": set(inc), "done": bool}
-    bad = []
+    cleared_nans = set()   # values of NaN entries removed by clear()
+    raw = []
+
+    class _Bad(list):
+        def append(self, t, tag="general"):
+            list.append(self, (t[0], t[1], tag))
+    bad = _Bad()
 
     def removed(incs):
         for it in its.values():
@@ -460,13 +464,13 @@ def judge(hist, real_ans, pre):
         elif name == "clr":
             exp = "ok"
             removed(set(e[1] for e in live.values()) | set(nans.values()))
+            cleared_nans |= set(nans.keys())
             live, nans = {}, {}
         elif name == "len":
             exp = "n=%d" % (len(live) + len(nans))
-        elif name == "itn":
-            exp = "ok"
-            its[s] = {"must": set(e[1] for e in live.values()) | set(nans.values()), "seen": set(), "done": False}
-        elif name == "itx":
+        elif name in ("itn", "itx"):
+            if name == "itn":   # NewMapIter + first MapIterNext
+                its[s] = {"must": set(e[1] for e in live.values()) | set(nans.values()), "seen": set(), "done": False}
             it = its.get(s)
             if it is None:
                 if ans != "bad-op":
@@ -499,7 +503,8 @@ def judge(hist, real_ans, pre):
                 e = live.get(kk.cls)
                 e_inc = e[1] if e and e[0] == vv else None
             if e_inc is None:
-                bad.append((i, "range yields a deleted/overwritten entry: " + ans))
+                bad.append((i, "range yields a deleted/overwritten entry: " + ans),
+                           "nan-stale" if (not kk.refl and vv in cleared_nans) else "general")
             elif e_inc in it["seen"]:
                 bad.append((i, "range yields an entry twice: " + ans))
             else:
@@ -594,7 +599,7 @@ def build_native(ctx):
     return native.make_native(ctx, RT_FILES, extra, {"main.go": open(os.path.join(H, "main.go.txt")).read()}, name="native-c06")
 
 
-def minimise(binary, hist, limit=40):
+def minimise(binary, hist, tag="general", limit=40):
     """shrink a spec-violating history: shortest prefix, then drop chunks of ops (delta debugging, bounded)"""
     def fails(h):
         rl, pre = real_lines_of(h)
@@ -602,10 +607,10 @@ def minimise(binary, hist, limit=40):
             ra, _, _, _, _ = run_real(binary, rl, timeout=120)
         except subprocess.TimeoutExpired:
             return True
-        return bool(judge(h, ra, pre))
+        return any(b[2] == tag for b in judge(h, ra, pre))
     rl, pre = real_lines_of(hist)
     ra, _, _, _, _ = run_real(binary, rl)
-    bad = judge(hist, ra, pre)
+    bad = [b for b in judge(hist, ra, pre) if b[2] == tag]
     if not bad:
         return hist
     cur = dict(hist, ops=hist["ops"][:bad[0][0] + 1])
@@ -669,6 +674,7 @@ def run(ctx, args):
                 hists.append(h)
 
     total = 0
+    seen_keys = set()
     nontrivial = set()
     dist = {}
     spec_fail = 0
@@ -692,22 +698,28 @@ def run(ctx, args):
         fc = r["first_clr"]
         if r["spec"]:
             spec_fail += 1
-            i, msg = r["spec"][0]
-            after_clear = fc is not None and fc < i
-            if after_clear:
+        for tag in ("general", "nan-stale"):
+            vs = [b for b in r["spec"] if b[2] == tag]
+            if not vs:
+                continue
+            i, msg, _ = vs[0]
+            if tag == "nan-stale":
+                key = KNOWN_NAN
+            elif fc is not None and fc < i:
                 defect_clear = True
                 key = KNOWN_CLEAR
             else:
                 key = "c06:%s:%s" % (h["name"], msg[:60])
-            known = ctx.match_known(key) is not None
-            hm = h if (known and key in getattr(ctx, "_c06_seen", set())) else minimise(binary, h)
-            ctx._c06_seen = getattr(ctx, "_c06_seen", set()) | {key}
-            ctx.log("specification violated by the real code in %s at op %d: %s (+%d more); minimised to %d ops" % (h["name"], i, msg, len(r["spec"]) - 1, len(hm["ops"])))
+            if key in seen_keys and ctx.match_known(key) is not None:
+                continue
+            seen_keys.add(key)
+            hm = minimise(binary, h, tag) if len(h["ops"]) > 60 else h
+            ctx.log("specification violated by the real code in %s at op %d: %s (+%d more of this class); minimised to %d ops" % (h["name"], i, msg, len(vs) - 1, len(hm["ops"])))
             ctx.report(key, "map runtime violates the finite-map specification: " + msg,
-                       {"history": hist_json(hm), "violations": r["spec"][:5], "fatal_error_lines": r["fatal_lines"], "source": h["name"]})
+                       {"history": hist_json(hm), "violations": vs[:5], "fatal_error_lines": r["fatal_lines"], "source": h["name"]})
         if r["mismatch"]:
             i = r["mismatch"][0]
-            if fc is not None and fc < i and (defect_clear or r["spec"]):
+            if fc is not None and fc < i and (defect_clear or any(b[2] == "general" for b in r["spec"])):
                 suspended += 1      # divergence after clear() while the clear defect is present: explained by the finding
             else:
                 mismatches.append((h["name"], r["mismatch"], h))
